@@ -38,6 +38,7 @@ type SRes struct {
 type Row struct {
 	Mode    string   `json:"mode"`
 	Cli     []int    `json:"cli"` // per abstract version 1..W: 0 = absent, else abstract magic
+	Snt     []int    `json:"snt"` // the abstract versions in the ProposeVersions message (absent in old replays: all of Cli)
 	Srv     []int    `json:"srv"`
 	K       int      `json:"k"` // format threshold (0 = unconstrained)
 	Qf      bool     `json:"qf"`
@@ -70,8 +71,44 @@ func tabString(t []int) string {
 	return "{" + strings.Join(parts, ",") + "}"
 }
 
-// CaseKey names the abstract case (never contains seeded values).
+// Sent is the set of abstract versions the initiator put on the wire in this
+// run of the specification (ascending).
+func (r *Row) Sent() []int {
+	if r.Snt == nil {
+		return Dom(r.Cli)
+	}
+	out := append([]int{}, r.Snt...)
+	sort.Ints(out)
+	return out
+}
+
+// SentAll says that the run's proposal is the whole configured table.
+func (r *Row) SentAll() bool { return fmt.Sprint(r.Sent()) == fmt.Sprint(append([]int{}, Dom(r.Cli)...)) }
+
+// SentKey names a sent set, e.g. "{2,3}".
+func SentKey(sent []int) string {
+	parts := make([]string, len(sent))
+	for i, a := range sent {
+		parts[i] = fmt.Sprint(a)
+	}
+	return "{" + strings.Join(parts, ",") + "}"
+}
+
+// CaseKey names the abstract case (never contains seeded values).  A run in
+// which the proposal is the configured table keeps the key it always had; a
+// run in which only a part of the table was sent names that part.
 func (r *Row) CaseKey() string {
+	key := r.configKey()
+	if !r.SentAll() {
+		key += ":sent=" + SentKey(r.Sent())
+	}
+	return key
+}
+
+// ConfigKey names the configuration of the case (everything but what was sent).
+func (r *Row) ConfigKey() string { return r.configKey() }
+
+func (r *Row) configKey() string {
 	q := "noquery"
 	if r.Qf {
 		q = "query"
